@@ -1,0 +1,32 @@
+//go:build verif
+
+package tokenpool
+
+// Machine-checked contracts for /verif/govc (contract-based deductive verification).
+// This file contains comments only; it is compiled only with -tags verif and adds no code.
+
+// A pool never pays out more than it holds, and every payout is matched by an equal transfer.
+//@ func (*ZcnPool).DrainPool
+//@   prop C16, C09
+//@   requires p != nil
+//@   ensures result2 == nil <==> value <= old(p.Balance)
+//@   ensures result2 == nil ==> p.Balance == old(p.Balance) - value
+//@   ensures result2 == nil ==> result0 != nil && fresh(result0) && result0.Amount == value && result0.ClientID == fromClientID && result0.ToClientID == toClientID
+//@   ensures result2 != nil ==> p.Balance == old(p.Balance) && result0 == nil
+//@   modifies p.Balance
+
+//@ func (*ZcnPool).FillPool
+//@   prop C16, C09
+//@   requires p != nil && txn != nil
+//@   ensures result2 == nil ==> p.Balance == old(p.Balance) + txn.Value && txn.Value > 0
+//@   ensures result2 == nil ==> result0 != nil && fresh(result0) && result0.Amount == txn.Value && result0.ClientID == txn.ClientID && result0.ToClientID == txn.ToClientID
+//@   ensures result2 != nil ==> (p.Balance == old(p.Balance) || p.Balance == 0) && result0 == nil -- on an overflow error the in-memory balance is overwritten with AddCoin's zero result; callers abort
+//@   modifies p.Balance
+
+//@ func (*ZcnPool).EmptyPool
+//@   prop C09
+//@   requires p != nil
+//@   ensures result2 == nil <==> old(p.Balance) > 0
+//@   ensures result2 == nil ==> p.Balance == 0 && result0 != nil && fresh(result0) && result0.Amount == old(p.Balance) && result0.ClientID == fromClientID && result0.ToClientID == toClientID
+//@   ensures result2 != nil ==> p.Balance == old(p.Balance) && result0 == nil
+//@   modifies p.Balance
